@@ -59,6 +59,8 @@ func main() {
 			res.Evaluations, res.DistinctNontrivial, res.OpsExecuted, res.DisagreementCount, res.MonitorHitCount, len(res.TwinMismatches), res.TwinRuns, res.HashReplays)
 	case "smoke":
 		smoke()
+	case "dumpkeys":
+		dumpkeys(3)
 	case "replay":
 		fs := flag.NewFlagSet("replay", flag.ExitOnError)
 		_ = fs.String("driver", "", "path to olpdriver")
@@ -79,6 +81,26 @@ func main() {
 			kv.WriteResult(*out, res)
 		}
 		fmt.Fprintf(stdout, "replay: cases=%d nontrivial=%d monitor=%v counters=%v\n", res.Evaluations, res.DistinctNontrivial, res.MonitorHitCount, res.Counters)
+	case "ledger", "ledger-direct":
+		fs := flag.NewFlagSet(os.Args[1], flag.ExitOnError)
+		_ = fs.String("driver", "", "path to olpdriver")
+		seed := fs.Uint64("seed", 1, "seed")
+		hist := fs.Int("histories", 10, "histories")
+		blocks := fs.Int("blocks", 10, "blocks per history")
+		maxtx := fs.Int("maxtxs", 6, "max txs per block")
+		out := fs.String("out", "", "result json")
+		fs.Parse(os.Args[2:])
+		stdout := apph.SilenceAppLogs()
+		res, err := apph.RunLedger(apph.LedgerOptions{Seed: *seed, Histories: *hist, Blocks: *blocks, MaxTxs: *maxtx, Direct: os.Args[1] == "ledger-direct"})
+		apph.Cleanup()
+		if err != nil {
+			fmt.Fprintln(stdout, "olh ledger:", err)
+			os.Exit(2)
+		}
+		if *out != "" {
+			kv.WriteResult(*out, res)
+		}
+		fmt.Fprintf(stdout, "%s: cases=%d nontrivial=%d monitor=%v\n", os.Args[1], res.Evaluations, res.DistinctNontrivial, res.MonitorHitCount)
 	case "shell":
 		fs := flag.NewFlagSet("shell", flag.ExitOnError)
 		driver := fs.String("driver", "", "path to olpdriver")
